@@ -44,5 +44,11 @@ let handle (w : string list) : string =
             | _ -> go s' (k + 1) (max mx (int_of_z (inflight s'))) r)
          | None -> "REJECT at=" ^ string_of_int k ^ " event=" ^ e ^ " tc=" ^ string_of_int (int_of_z s.tc)) in
     go (init nn) 0 0 evs
+  | "exit" :: optS :: optk :: hosts ->
+    (* the exit status of a scripted run: exit <S:0/1> <k:0/1> <fails:0/1>:<code>:<teardown status> ... *)
+    let hl = List.map (fun t -> match String.split_on_char ':' t with
+      | [fl; code; drc] -> (fl = "1", (z_of_int (int_of_string code), z_of_int (int_of_string drc)))
+      | _ -> failwith ("host " ^ t)) hosts in
+    "exit=" ^ string_of_int (int_of_z (run_exit (optS = "1") (optk = "1") hl))
   | _ -> "MODEL-BADCASE"
 let () = main_loop handle
